@@ -110,6 +110,8 @@ def setvalue_clauses(key):
         "C03+C15.subconfig-linked": "implies(typeis(result, 'ref:Config') and not typeis(fieldof(self, KEY), 'ref:Field'),"
                                     " result._parent is self and result._key == KEY and dict_is_upd(self._data, KEY, result))",
     }
+    ens["C01+C12.other-keys-untouched"] = ('forall("k:key", "implies(k != KEY, has(self._data, k) == old(has(self._data, k)) and get(self._data, k) == old(get(self._data, k))'
+                                           ' and has(self._default_value_keys, k) == old(has(self._default_value_keys, k)))")')
     ens["C03+C15.own-links-kept"] = "self._parent is old(self._parent) and self._key == old(self._key) and self._container is old(self._container) and self._schema is old(self._schema)"
     rai = {
         "C03+C15.own-links-kept": "self._parent is old(self._parent) and self._key == old(self._key) and self._container is old(self._container) and self._schema is old(self._schema)",
@@ -308,9 +310,13 @@ def register_defaults(reg):
       modifies=["self.*", "fresh", "ncalls"] + ADOPT,
       requires={"keywords-are-strings": 'forall("k:key", "implies(has(data, k), typeis(k, \'str\'))")'},
       assumes={"A.acyclic": 'forall("k:key", "implies(has(data, k), not inside(get(data, k), self) and inside(get(data, k), get(data, k)))") and parent is not self'},
-      invariants={0: {"own": OWN, "frame": "implies(len(data) == 0, heap_unchanged(self, self._data, self._fields, self._default_value_keys))"}, 1: {"own": OWN, "defaults-so-far": DEF % "I", "frame": "implies(len(data) == 0, heap_unchanged(self, self._data, self._fields, self._default_value_keys))"}},
+      invariants={0: {"own": OWN, "frame": "implies(len(data) == 0, heap_unchanged(self, self._data, self._fields, self._default_value_keys))",
+                      "keywords-so-far": 'forall("k:key", "implies(has(data, k) and pos(data, k) < I and has(schema._fields, k) and persistent(get(schema._fields, k)), not has(self._default_value_keys, k) and has(self._data, k))")'},
+                  1: {"own": OWN, "defaults-so-far": DEF % "I", "frame": "implies(len(data) == 0, heap_unchanged(self, self._data, self._fields, self._default_value_keys))",
+                      "keywords-stay": 'forall("k:key", "implies(has(data, k) and True and has(schema._fields, k) and persistent(get(schema._fields, k)), not has(self._default_value_keys, k) and has(self._data, k))")'}},
       ensures={
           "C12.every-unsupplied-field-has-its-default-and-is-not-user-defined": DEF % "nfields(schema)",
+          "C12.supplied-keywords-are-user-defined-and-keep-their-value": 'forall("k:key", "implies(has(data, k) and True and has(schema._fields, k) and persistent(get(schema._fields, k)), not has(self._default_value_keys, k) and has(self._data, k))")',
           "C13.own-representation": "self._schema is schema and self._parent is parent and self._key == schema._key",
           "C03.key-file-named-when-given": "implies(len(data) == 0, iff(truthy(self.__keyfile), truthy(key_filename)) and implies(truthy(key_filename), self.__keyfile.filename == key_filename and fresh(self.__keyfile)))",
           "C13.construction-touches-nothing-existing": "implies(len(data) == 0, heap_unchanged(self, self._data, self._fields, self._default_value_keys))",
